@@ -45,6 +45,8 @@
 package interp // import "golang.org/x/tools/go/ssa/interp"
 
 import (
+	"strings"
+
 	"fmt"
 	"go/token"
 	"go/types"
@@ -57,7 +59,6 @@ import (
 	_ "unsafe"
 
 	"golang.org/x/tools/go/ssa"
-	"golang.org/x/tools/internal/typeparams"
 )
 
 type continuation int
@@ -250,11 +251,15 @@ func visitInstr(fr *frame, instr ssa.Instruction) continuation {
 		fr.get(instr.Chan).(chan value) <- fr.get(instr.X)
 
 	case *ssa.Store:
-		store(typeparams.MustDeref(instr.Addr.Type()), fr.get(instr.Addr).(*value), fr.get(instr.Val))
+		addr := fr.get(instr.Addr)
+		if sp, ok := addr.(*symptr); ok {
+			addr = sp.concretePtr()
+		}
+		store(mustDeref(instr.Addr.Type()), addr.(*value), fr.get(instr.Val))
 
 	case *ssa.If:
 		succ := 1
-		if fr.get(instr.Cond).(bool) {
+		if decideBool(fr.get(instr.Cond)) {
 			succ = 0
 		}
 		fr.prevBlock, fr.block = fr.block, fr.block.Succs[succ]
@@ -298,7 +303,7 @@ func visitInstr(fr *frame, instr ssa.Instruction) continuation {
 			// local
 			addr = fr.env[instr].(*value)
 		}
-		*addr = zero(typeparams.MustDeref(instr.Type()))
+		*addr = zero(mustDeref(instr.Type()))
 
 	case *ssa.MakeSlice:
 		slice := make([]value, asInt64(fr.get(instr.Cap)))
@@ -325,7 +330,11 @@ func visitInstr(fr *frame, instr ssa.Instruction) continuation {
 		fr.env[instr] = fr.get(instr.Iter).(iter).next()
 
 	case *ssa.FieldAddr:
-		fr.env[instr] = &(*fr.get(instr.X).(*value)).(structure)[instr.Field]
+		base := fr.get(instr.X)
+		if sp, ok := base.(*symptr); ok {
+			base = sp.concretePtr()
+		}
+		fr.env[instr] = &(*base.(*value)).(structure)[instr.Field]
 
 	case *ssa.Field:
 		fr.env[instr] = fr.get(instr.X).(structure)[instr.Field]
@@ -333,11 +342,22 @@ func visitInstr(fr *frame, instr ssa.Instruction) continuation {
 	case *ssa.IndexAddr:
 		x := fr.get(instr.X)
 		idx := fr.get(instr.Index)
+		if sp, ok := x.(*symptr); ok {
+			x = sp.concretePtr()
+		}
 		switch x := x.(type) {
 		case []value:
-			fr.env[instr] = &x[asInt64(idx)]
+			if si, ok := idx.(*sym); ok {
+				fr.env[instr] = symIndexAddr(x, si)
+			} else {
+				fr.env[instr] = &x[asInt64(idx)]
+			}
 		case *value: // *array
-			fr.env[instr] = &(*x).(array)[asInt64(idx)]
+			if si, ok := idx.(*sym); ok {
+				fr.env[instr] = symIndexAddr([]value((*x).(array)), si)
+			} else {
+				fr.env[instr] = &(*x).(array)[asInt64(idx)]
+			}
 		default:
 			panic(fmt.Sprintf("unexpected x type in IndexAddr: %T", x))
 		}
@@ -348,9 +368,23 @@ func visitInstr(fr *frame, instr ssa.Instruction) continuation {
 
 		switch x := x.(type) {
 		case array:
-			fr.env[instr] = x[asInt64(idx)]
+			if si, ok := idx.(*sym); ok {
+				fr.env[instr] = symIndexAddr([]value(x), si).(loader).loadElem()
+			} else {
+				fr.env[instr] = x[asInt64(idx)]
+			}
+		case sstring:
+			if si, ok := idx.(*sym); ok {
+				fr.env[instr] = symIndexAddr([]value(x), si).(loader).loadElem()
+			} else {
+				fr.env[instr] = x[asInt64(idx)]
+			}
 		case string:
-			fr.env[instr] = x[asInt64(idx)]
+			if si, ok := idx.(*sym); ok {
+				fr.env[instr] = symIndexAddr([]value(toSString(x)), si).(loader).loadElem()
+			} else {
+				fr.env[instr] = x[asInt64(idx)]
+			}
 		default:
 			panic(fmt.Sprintf("unexpected x type in Index: %T", x))
 		}
@@ -363,10 +397,11 @@ func visitInstr(fr *frame, instr ssa.Instruction) continuation {
 		key := fr.get(instr.Key)
 		v := fr.get(instr.Value)
 		switch m := m.(type) {
-		case map[value]value:
-			m[key] = v
 		case *hashmap:
-			m.insert(key.(hashable), v)
+			if m == nil {
+				panic(runtimeErr("assignment to entry in nil map"))
+			}
+			m.insert(key, v)
 		default:
 			panic(fmt.Sprintf("illegal map type: %T", m))
 		}
@@ -511,16 +546,25 @@ func callSSA(i *interpreter, caller *frame, callpos token.Pos, fn *ssa.Function,
 		fn:     fn,
 	}
 	if fn.Parent() == nil {
-		name := fn.String()
-		if ext := externals[name]; ext != nil {
-			if i.mode&EnableTracing != 0 {
-				fmt.Fprintln(os.Stderr, "\t(external)")
-			}
+		ext, known := extCache[fn]
+		if !known {
+			ext = resolveExternal(fn)
+			extCache[fn] = ext
+		}
+		if ext != nil {
 			return ext(fr, args)
 		}
 		if fn.Blocks == nil {
-			panic("no code for function: " + name)
+			unsupported("no code for function: %s", fn.String())
 		}
+	}
+	X.depth++
+	if X.depth > X.MaxDepth {
+		panic(pathEnd{endBudget, fmt.Sprintf("call depth %d exceeded in %s", X.MaxDepth, fn)})
+	}
+	defer func() { X.depth-- }()
+	if X.FuncsHit != nil {
+		X.FuncsHit[fn]++
 	}
 
 	// generic function body?
@@ -532,7 +576,7 @@ func callSSA(i *interpreter, caller *frame, callpos token.Pos, fn *ssa.Function,
 	fr.block = fn.Blocks[0]
 	fr.locals = make([]value, len(fn.Locals))
 	for i, l := range fn.Locals {
-		fr.locals[i] = zero(typeparams.MustDeref(l.Type()))
+		fr.locals[i] = zero(mustDeref(l.Type()))
 		fr.env[l] = &fr.locals[i]
 	}
 	for i, p := range fn.Params {
@@ -576,6 +620,15 @@ func runFrame(fr *frame) {
 		}
 		fr.panicking = true
 		fr.panic = recover()
+		if pe, ok := fr.panic.(pathEnd); ok {
+			panic(pe) // path termination is not a target panic: no defers, no recover
+		}
+		if re, ok := fr.panic.(runtime.Error); ok && strings.Contains(re.Error(), "interp.") {
+			panic(pathEnd{endUnsupported, "interpreter: " + re.Error() + " in " + fr.fn.String()})
+		}
+		if s, ok := fr.panic.(string); ok && isInternalPanic(s) {
+			panic(pathEnd{endUnsupported, "interpreter: " + s + " in " + fr.fn.String()})
+		}
 		if fr.i.mode&EnableTracing != 0 {
 			fmt.Fprintf(os.Stderr, "Panicking: %T %v.\n", fr.panic, fr.panic)
 		}
@@ -596,6 +649,10 @@ func runFrame(fr *frame) {
 				} else {
 					fmt.Fprintln(os.Stderr, "\t", instr)
 				}
+			}
+			X.steps++
+			if X.steps > X.MaxSteps {
+				panic(pathEnd{endBudget, fmt.Sprintf("step budget %d exceeded in %s", X.MaxSteps, fr.fn)})
 			}
 			if visitInstr(fr, instr) == kReturn {
 				return
@@ -709,7 +766,7 @@ func Interpret(mainpkg *ssa.Package, mode Mode, sizes types.Sizes, filename stri
 		for _, m := range pkg.Members {
 			switch v := m.(type) {
 			case *ssa.Global:
-				cell := zero(typeparams.MustDeref(v.Type()))
+				cell := zero(mustDeref(v.Type()))
 				i.globals[v] = &cell
 			}
 		}
